@@ -52,6 +52,10 @@ Next ==
      THEN /\ bad' = IF e.with = e.without THEN bad ELSE bad \cup {l}
           /\ why' = IF e.with = e.without THEN why ELSE [i \in DOMAIN why \cup {l} |-> IF i = l THEN "tracing perturbs execution" ELSE why[i]]
           /\ UNCHANGED <<dead, phase, pc, target, budget, all0, consumed, logging, prog, lastop>>
+     ELSE IF e.k = "textpair"    \* C14: the trace text is the same through any kind of Logger (plain buffer vs small bufio.Writer)
+     THEN /\ bad' = IF e.same THEN bad ELSE bad \cup {l}
+          /\ why' = IF e.same THEN why ELSE [i \in DOMAIN why \cup {l} |-> IF i = l THEN "trace text depends on the kind of Logger" ELSE why[i]]
+          /\ UNCHANGED <<dead, phase, pc, target, budget, all0, consumed, logging, prog, lastop>>
      ELSE IF dead THEN UNCHANGED <<bad, dead, phase, pc, target, budget, all0, consumed, logging, prog, lastop, why>>
      ELSE IF e.k = "lost" THEN /\ dead' = TRUE
                                /\ UNCHANGED <<bad, phase, pc, target, budget, all0, consumed, logging, prog, lastop, why>>
